@@ -229,6 +229,13 @@ impl Responder {
     /// 401 challenge; returns the bytes and the server state that becomes current if the
     /// client accepts it (emits Retry).
     pub fn challenge(&mut self, rng: &mut Rng, txid: &Id, method: u16, algs: u8, anonymity: bool, cookie: bool, new_realm: bool) -> (Vec<u8>, LtServer) {
+        self.challenge_variant(rng, txid, method, algs, anonymity, cookie, new_realm, 0)
+    }
+
+    /// variant: 0 well-formed, 1 REALM missing, 2 NONCE missing, 3 cookie demands
+    /// PASSWORD-ALGORITHMS but the attribute is absent
+    #[allow(clippy::too_many_arguments)]
+    pub fn challenge_variant(&mut self, rng: &mut Rng, txid: &Id, method: u16, algs: u8, anonymity: bool, cookie: bool, new_realm: bool, variant: u8) -> (Vec<u8>, LtServer) {
         self.seq += 1;
         let realm = match (&self.lt, new_realm) {
             (Some(lt), false) => lt.realm.clone(),
@@ -240,7 +247,12 @@ impl Responder {
             1 => Some(vec![(1, vec![])]),
             2 => Some(vec![(2, vec![])]),
             3 => Some(vec![(1, vec![]), (2, vec![])]),
-            _ => Some(vec![(2, vec![]), (1, vec![])]),
+            4 => Some(vec![(2, vec![]), (1, vec![])]),
+            // no supported algorithm at all
+            5 => Some(vec![(3, vec![]), (0x7FFF, vec![1, 2])]),
+            // unsupported entries around a supported one
+            6 => Some(vec![(3, vec![9]), (1, vec![]), (0, vec![])]),
+            _ => Some(vec![(0x0100, vec![1, 2, 3, 4, 5]), (2, vec![])]),
         };
         let rest = format!("n{}x{}", self.seq, rng.below(1000));
         let nonce = if cookie || list.is_some() || anonymity {
@@ -248,9 +260,17 @@ impl Responder {
         } else {
             rest
         };
-        let mut extra = vec![(wire::T_REALM, realm.as_bytes().to_vec()), (wire::T_NONCE, nonce.as_bytes().to_vec())];
+        let mut extra = Vec::new();
+        if variant != 1 {
+            extra.push((wire::T_REALM, realm.as_bytes().to_vec()));
+        }
+        if variant != 2 {
+            extra.push((wire::T_NONCE, nonce.as_bytes().to_vec()));
+        }
         if let Some(l) = &list {
-            extra.push((wire::T_PASSWORD_ALGORITHMS, algs_value(l)));
+            if variant != 3 {
+                extra.push((wire::T_PASSWORD_ALGORITHMS, algs_value(l)));
+            }
         }
         // the library prefers SHA-256 when both are offered; either choice is legal, the
         // responder learns the real choice from the next request (see observe_request)
